@@ -450,8 +450,8 @@ def finalize(agg):
 
 
 PROP = Prop("C14", [
-    Test("constant_programs", const_body, quick=2500, thorough=40000, shard_size=400),
-    Test("nograd_set", nograd_body, quick=2500, thorough=40000, shard_size=400),
+    Test("constant_programs", const_body, quick=8000, thorough=40000, shard_size=400),
+    Test("nograd_set", nograd_body, quick=8000, thorough=40000, shard_size=400),
 ], RULE, assumptions=[
     "raw NumPy decides local constancy and the reference value/type of every non-differentiable function",
 ], finalize=finalize)
